@@ -12,7 +12,30 @@ import os
 from . import core
 
 NAMES = {"None": "None", "plain": "my_project", "fancy": 'My Project, v1.0 "beta" (#2) [x]; a=b'}
-WSDIR = {"workspace": "workspace", "custom": "my_workspace", "nested": os.path.join("data", "ws dir")}
+# location token -> directory (relative to the project); workspace_dir spelling token -> (text in the config, location)
+WSDIR = {"workspace": "workspace", "custom": "my_workspace", "custom2": "workspace2", "ws": "ws",
+         "nested": os.path.join("data", "ws dir"), "nestedws": os.path.join("scratch", "workspace"),
+         "deepws": os.path.join("a", "b", "workspace")}
+LOCS = tuple(WSDIR)
+KEYTEXT = {"workspace": "workspace", "dotws": "./workspace", "wsslash": "workspace/", "custom": "my_workspace", "custom2": "workspace2",
+           "dotcustom": "./ws", "customslash": "ws/", "nested": "data/ws dir", "nestedws": "scratch/workspace", "deepws": "a/b/workspace"}
+LOC_OF = {"": "workspace", "workspace": "workspace", "dotws": "workspace", "wsslash": "workspace", "custom": "custom", "custom2": "custom2",
+          "dotcustom": "ws", "customslash": "ws", "nested": "nested", "nestedws": "nestedws", "deepws": "deepws"}
+
+
+def key_text(real, tok):
+    """the text of the workspace_dir entry for spelling token tok (random projects override the directory names)"""
+    if tok in ("custom", "nested") and real[tok] != WSDIR[tok]:
+        return real[tok]
+    return KEYTEXT[tok]
+
+
+def top_parent(real, l0):
+    """first path component of the nested location this layout uses (its emptied parents stay behind), or 'data'"""
+    for loc in LOCS:
+        if os.sep in real[loc] and (l0["dirs"].get(loc, "absent") != "absent" or LOC_OF.get(l0["wsKey"]) == loc):
+            return real[loc].split(os.sep)[0]
+    return "data"
 EXTRA_KEY, EXTRA_VAL = "author_name", "A. Tester"
 USER_DOC = {"user": {"n": 1, "tags": ["x", "y"], "nested": {"k": None}}}
 LOCK = ".SIGNAC_PROJECT_MIGRATION_LOCK"
@@ -56,14 +79,14 @@ def config_text(l, real):
     if l["name"] != "":
         lines.append("project = " + quote(real["name"]))
     if l["wsKey"] != "":
-        lines.append("workspace_dir = " + quote(real[l["wsKey"]]))
+        lines.append("workspace_dir = " + quote(key_text(real, l["wsKey"])))
     if l["ver"] != "absent":
         lines.append("schema_version = " + l["ver"])
     return ("\n".join(lines) + "\n").encode()
 
 
 def default_real(l):
-    return {"name": NAMES.get(l["name"], l["name"]), "workspace": "workspace", "custom": WSDIR["custom"], "nested": WSDIR["nested"]}
+    return dict(WSDIR, name=NAMES.get(l["name"], l["name"]))
 
 
 def _write(fn, data):
@@ -97,7 +120,7 @@ def write_layout(l, root, real=None):
                 for rel, data in j["files"].items():
                     _write(os.path.join(jd, rel), data)
     if l["dataDir"]:
-        os.makedirs(os.path.join(root, "data"), exist_ok=True)
+        os.makedirs(os.path.join(root, top_parent(real, l)), exist_ok=True)
     if l["cache"] != "none":
         fn = os.path.join(root, CACHE[l["cache"]])
         os.makedirs(os.path.dirname(fn), exist_ok=True)
@@ -180,12 +203,12 @@ def project_disk(root, jobs, l0, real=None):
     else:
         L["name"] = "?" + name
     ws = ini.pop("workspace_dir", None)
-    L["wsKey"] = "" if ws is None else next((k for k in ("workspace", "custom", "nested") if real[k] == ws), "?" + ws)
+    L["wsKey"] = "" if ws is None else next((k for k in KEYTEXT if key_text(real, k) == ws), "?" + ws)
     ex = ini.pop(EXTRA_KEY, None)
     L["cfgExtra"] = False if ex is None else True if ex == EXTRA_VAL else "?" + ex
     extra += ["config-entry:" + k for k in ini]
     dirs, found = {}, 0
-    for loc in ("workspace", "custom", "nested"):
+    for loc in LOCS:
         d = os.path.join(root, real[loc])
         if not os.path.isdir(d):
             dirs[loc] = "absent"
@@ -203,7 +226,8 @@ def project_disk(root, jobs, l0, real=None):
             dirs[loc] = "other:" + ",".join(sorted(names))[:80]
     L["dirs"] = dirs
     L["njobs"] = found if "jobs" in dirs.values() else -1
-    L["dataDir"] = os.path.isdir(os.path.join(root, "data"))
+    top = top_parent(real, l0)
+    L["dataDir"] = os.path.isdir(os.path.join(root, top))
     cache_bytes = None
     for field, table, want in (("cache", CACHE, None), ("hist", HIST, HIST_TEXT)):
         r, d = os.path.isfile(os.path.join(root, table["root"])), os.path.isfile(os.path.join(root, table["dot"]))
@@ -234,15 +258,24 @@ def project_disk(root, jobs, l0, real=None):
             L["pdocName"] = (l0["name"] if l0["name"] not in ("", "None") else rev.get(n, n)) if n == real["name"] or n in rev else "?" + str(n)
         extra += ["project-document-entry:" + k for k in doc]
     L["lock"] = os.path.exists(os.path.join(root, LOCK))
-    known = {RC, "signac_project_document.json", LOCK, CACHE["root"], HIST["root"], "notes", "data", ".signac",
-             real["workspace"], real["custom"], real["nested"].split(os.sep)[0]}
+    known = {RC, "signac_project_document.json", LOCK, CACHE["root"], HIST["root"], "notes", top, ".signac"} | \
+        {real[loc].split(os.sep)[0] for loc in LOCS if dirs[loc] != "absent"}
     extra += ["path:" + n for n in sorted(os.listdir(root)) if n not in known]
     if os.path.isdir(os.path.join(root, ".signac")):
         extra += ["path:.signac/" + n for n in sorted(os.listdir(os.path.join(root, ".signac"))) if n not in ("config", "shell_history", "statepoint_cache.json.gz")]
     if _tree(os.path.join(root, "notes")) != {"readme.txt": b"a plain sub-directory\n"}:
         extra.append("notes-changed")
-    if os.path.isdir(os.path.join(root, "data")):
-        extra += ["path:data/" + n for n in sorted(os.listdir(os.path.join(root, "data"))) if os.path.join("data", n) != real["nested"]]
+    if os.path.isdir(os.path.join(root, top)) and top not in (real["workspace"], "notes"):
+        # the parent chain of a nested workspace may hold nothing but that chain
+        chains = [real[loc].split(os.sep) for loc in LOCS if real[loc].split(os.sep)[0] == top and os.sep in real[loc]]
+        for r_, ds_, fs_ in os.walk(os.path.join(root, top)):
+            rel = os.path.relpath(r_, root).split(os.sep)
+            if any(rel == c for c in chains):
+                ds_[:] = []
+                continue
+            for n in ds_ + fs_:
+                if not any(c[:len(rel) + 1] == rel + [n] for c in chains):
+                    extra.append("path:" + os.path.join(*rel, n))
     return L, extra
 
 
